@@ -572,14 +572,15 @@ def force_few_tapers(rng, sc):
     return sc
 
 
-def force_bw_nfft(rng, sc):
+def force_bw_nfft(rng, sc, idx=None):
     """the BW keyword together with NFFT in {None, N, > N}; NFFT > N large enough that BW*NFFT/Fs and
     BW*N/Fs round to different numbers of tapers"""
     n = sc["shape"][-1]
     sc.pop("NW", None)
     m = rng.randint(3, max(3, min(6, n // 3)))
     sc["BW"] = float((m + rng.uniform(-0.3, 0.3)) * fs_of(sc) / n).hex()
-    sc["NFFT"] = rng.choice([None, n, n + n // 2, n + n // 2, n + n // 3, n + n // 2 + 1, 2 * n])
+    grid = [n + n // 2, None, n + n // 3, n, n + n // 2 + 1, 2 * n, n + n // 2]
+    sc["NFFT"] = rng.choice(grid) if idx is None else grid[idx % len(grid)]
     return sc
 
 
